@@ -295,6 +295,9 @@ class Port_Matcher
         {
             if(strncmp(msg, fixed[i].c_str(), fixed[i].length()))
                 return false;
+            //only a subtree port ("name/") may match a longer address
+            if(!fixed[i].empty() && fixed[i].back() != '/' && msg[fixed[i].length()])
+                return false;
             if(arg_spec[i])
                 return rtosc_match_args(arg_spec[i], msg);
             else
